@@ -19,6 +19,8 @@ func gcdInt(a, b int) int {
 }
 
 var c17Prev prevTracker
+var c17Calls int
+var c17Bufs = [2]orb.LineString{make(orb.LineString, 48), make(orb.LineString, 48)}
 
 func l1Dist(a, b orb.Point) float64 { return math.Abs(a[0]-b[0]) + math.Abs(a[1]-b[1]) }
 
@@ -36,6 +38,12 @@ func init() {
 			}
 			// the line is the head of a longer buffer (spare capacity holding foreign points) in two calls out of three
 			buf := make(orb.LineString, len(vs)+((len(vs)+n+dn)%3+3)%3*8)
+			// history: every other call the line lives in one of two long-lived buffers that held other lines before (two in
+			// rotation, so that the previous result - which may be the input itself - is not overwritten by the harness)
+			c17Calls++
+			if c17Calls%2 == 0 && len(buf) <= 48 {
+				buf = c17Bufs[(c17Calls/2)%2][:len(buf)]
+			}
 			for i := range buf {
 				buf[i] = orb.Point{9999, -9999}
 			}
@@ -109,6 +117,16 @@ func init() {
 			}
 		}
 		rec([][2]int{{1, 2}}, []int{})
+		// (1b) the same short paths sixty times larger: coordinate differences beyond 180 and 360 are ordinary numbers to a
+		// planar distance function
+		for _, a := range steps[:12] {
+			for _, b := range steps[:12] {
+				for _, n := range []int{2, 3, 4, 7} {
+					vs := [][2]int{{60, 120}, {60 + 60*a[0], 120 + 60*a[1]}, {60 + 60*a[0] + 60*b[0], 120 + 60*a[1] + 60*b[1]}}
+					run(vs, []int{60 * a[2], 60 * b[2]}, "Resample", n, 1, 1, false)
+				}
+			}
+		}
 		run(nil, []int{}, "Resample", 3, 1, 1, false)
 		run([][2]int{}, []int{}, "Resample", 3, 1, 1, false)
 		run(nil, []int{}, "ToInterval", 0, 1, 2, false)
